@@ -65,6 +65,14 @@ KINDS = {
     "multi_selector": lambda: Item("multi_selector", [("color", "#777", False)], selector_fmt=".r%d, .x%d > p:hover"),
     "var_bg_and_text": lambda: Item("var_bg_and_text", [("color", "var(--t)", False), ("background-color", "var(--bg)", False)], needs=("--t", "--bg")),
     "prop_important": lambda: Item("prop_important", [("color", "var(--ti)", False)], needs=("--ti",)),
+    # the same selector in two rules (a base rule and an override): cards and counts must still tell them apart
+    "dup_light": lambda: Item("dup_light", [("color", "#888", False), ("background-color", "#fff", False)], selector_fmt=".dup"),
+    "dup_dark": lambda: Item("dup_dark", [("color", "#777", False), ("background-color", "#222", False)], selector_fmt=".dup"),
+    # adjusted rules whose selectors hold strings with runs of blanks, escapes, comments, non-ASCII
+    "sel_attr_spaces": lambda: Item("sel_attr_spaces", [("color", "#888", False), ("background-color", "#fff", False)],
+                                    selector_fmt='a[title="Read   more {i}"]::after'),
+    "sel_escaped": lambda: Item("sel_escaped", [("color", "#999", False)], selector_fmt=".menu\\  .item{i} > li"),
+    "sel_comment_nonascii": lambda: Item("sel_comment_nonascii", [("color", "#8a8a8a", False)], selector_fmt=".\u00fc{i} /* c */ > p:not(.x)::before"),
     "important": lambda: Item("important", [("color", "#777", True)]),
     "repeated": lambda: Item("repeated", [("color", "#000", False), ("margin", "0", False), ("color", "#777", False)]),
     "repeated_after_bg": lambda: Item("repeated_after_bg", [("color", "#333", False), ("background-color", "#fff", False), ("color", "#999", False)]),
@@ -86,7 +94,12 @@ ORDER = list(KINDS)
 
 
 def render_item(item, idx, wrapper="none", indent=""):
-    sel = item.selector or ((item.selector_fmt % (idx, idx)) if item.selector_fmt else ".r%d" % idx)
+    if item.selector:
+        sel = item.selector
+    elif item.selector_fmt:
+        sel = item.selector_fmt.replace("{i}", str(idx)) if "{i}" in item.selector_fmt or "%" not in item.selector_fmt else item.selector_fmt % (idx, idx)
+    else:
+        sel = ".r%d" % idx
     parts = []
     for d in item.decls:
         if isinstance(d, tuple):
